@@ -132,21 +132,9 @@ func (bv *BitVector) Equals() bool {
 		return false
 	}
 
-	l := len(bv.b)
-
-	length := bv.len % 8
-	for i := 0; i < l; i++ {
-		if length != 0 && i == l-1 {
-			for length > 0 {
-				length--
-				if bv.b[i]&(0x01<<uint(length%8)) == 0 {
-					return false
-				}
-			}
-		} else {
-			if bv.b[i] != 0xff {
-				return false
-			}
+	for i := 0; i < bv.len; i++ {
+		if !bv.Get(i) {
+			return false
 		}
 	}
 	return true
